@@ -267,7 +267,7 @@ def gen_s2n():
         for n in range(0, 6):
             if nm == 'word' and n in (1, 2):
                 pass
-            tier = 'quick' if n <= 3 else 'thorough'
+            tier = 'quick' if n <= 2 else 'thorough'
             h = 'k_c07_s2n_%s_%d' % (nm, n)
             out.append('    //@ob name=C07.str_to_number.%s.%d harness=%s props=C07,C09,C10,C01 tier=%s strength=bounded bound="every string of exactly %d characters over the alphabet {%s}" fns=js_op::str_to_number stubs=1 replay=generic timeout=300' % (nm, n, h, tier, n, what))
             out.append('    //@ desc="str_to_number(s) == ECMAScript StringToNumber(s): surrounding whitespace ignored, \\"\\" is 0, only `Infinity` spelled that way, 0x/0o/0b literals honoured (unsigned), decimal literals by from_str (assumed contract), anything else non-numeric"')
